@@ -132,6 +132,7 @@ type nativeResult struct {
 	Failed   []string `json:"failed"`
 	Covered  []string `json:"covered"`
 	Observed []string `json:"observed"`
+	TotalAlloc uint64 `json:"total_alloc"`
 	Panic    string
 	TimedOut bool
 	Output   string
@@ -221,6 +222,15 @@ func nativeReplay(eng *sym.Engine, h HarnessDef, replayFile string, v sym.Violat
 		if res.Panic != "" || strings.Contains(res.Output, "out of memory") || strings.Contains(res.Output, "cannot allocate") {
 			return true, ""
 		}
+		for _, o := range v.Observed {
+			if strings.HasPrefix(o, "alloc.size=") {
+				var n uint64
+				fmt.Sscanf(o[len("alloc.size="):], "%d", &n)
+				if n > 0 && res.TotalAlloc >= n {
+					return true, ""
+				}
+			}
+		}
 		return false, "allocation did not show natively: " + tail(res.Output, 400)
 	}
 	return false, "unknown violation kind " + v.Kind
@@ -278,6 +288,7 @@ func cmdReplay(args []string) int {
 		Harness  string `json:"harness"`
 		Kind     string `json:"kind"`
 		Label    string `json:"label"`
+		Observed []string `json:"observed"`
 	}
 	json.Unmarshal(b, &rp)
 	for _, c := range Checks {
@@ -287,7 +298,7 @@ func cmdReplay(args []string) int {
 		for _, h := range c.Harnesses {
 			if h.Func == rp.Harness {
 				defer cleanupScratch()
-				ok, note := nativeReplay(nil, h, args[0], sym.Violation{Kind: rp.Kind, Label: rp.Label})
+				ok, note := nativeReplay(nil, h, args[0], sym.Violation{Kind: rp.Kind, Label: rp.Label, Observed: rp.Observed})
 				if ok {
 					fmt.Printf("REPRODUCED property=%s harness=%s kind=%s label=%s\n", rp.Property, rp.Harness, rp.Kind, rp.Label)
 					return 1
